@@ -22,7 +22,6 @@ import multiprocessing
 import os
 import random
 import re
-import sys
 
 import vlib
 import respgen
